@@ -271,6 +271,22 @@ pub fn parse_then_discard<T>(b: &[u8], f: impl FnOnce(&[u8]) -> T) -> T {
     out
 }
 
+/// an `io::Read` that hands out at most `chunk` bytes per call (a pipe / socket / `Chain`-like
+/// reader): short reads are not the end of the input
+pub struct ChunkReader<'a> {
+    pub data: &'a [u8],
+    pub chunk: usize,
+}
+
+impl<'a> std::io::Read for ChunkReader<'a> {
+    fn read(&mut self, buf: &mut [u8]) -> std::io::Result<usize> {
+        let n = self.chunk.max(1).min(buf.len()).min(self.data.len());
+        buf[..n].copy_from_slice(&self.data[..n]);
+        self.data = &self.data[n..];
+        Ok(n)
+    }
+}
+
 pub fn err_brief(e: &sonic_rs::Error) -> String {
     let s = e.to_string();
     crate::core::truncate(&s, 200)
